@@ -2,5 +2,5 @@
 # usage: try_seed.sh <seed-id> <prop> [more check args]  - applies the seed to a scratch copy and runs ./check on it
 S=/verif/seeded/$1; P=$2; shift 2
 W=/tmp/tryseed_$$; mkdir -p $W && cp -r /repo/pygradflow $W/ && (cd $W && git init -q . 2>/dev/null; patch -p1 -s < $S/patch.diff) || { echo "patch failed"; rm -rf $W; exit 9; }
-PYVC_REPO=$W /verif/check $P "$@" 2>&1 | grep -v "^WARNING" | tail -8
+PYVC_REPO=$W PYVC_NO_EVIDENCE=1 /verif/check $P "$@" 2>&1 | grep -v "^WARNING" | tail -8
 echo "exit=$?"; rm -rf $W
